@@ -703,8 +703,22 @@ func c06RunAsync(cs c06Case) (res c06Result) {
 			}
 		}
 	}
+	runDrain := func() bool {
+		done := make(chan struct{})
+		go func() { drain(); close(done) }()
+		select {
+		case <-done:
+			return true
+		case <-time.After(generous * c06Scale()):
+			return false
+		}
+	}
 	if !outstanding {
-		drain()
+		close(conn.release) // a pause the sniffer never reached is over by the time the relay reads
+		if !runDrain() {
+			res.RelaySt, res.Slow = "blocked", true
+			return
+		}
 	} else if cs.Sched == "late" {
 		// the client's next bytes arrive before the relay touches the sniffer: release the outstanding
 		// read, wait until it has returned AND ReadFromOnce has published the new length
@@ -725,11 +739,10 @@ func c06RunAsync(cs c06Case) (res c06Result) {
 		} else if okGate {
 			time.Sleep(2 * time.Millisecond) // nothing observable changes on a late EOF
 		}
-		if !okGate {
+		if !okGate || !runDrain() {
 			res.RelaySt, res.Slow = "blocked", true
 			return
 		}
-		drain()
 	} else {
 		// the relay takes the buffer first; the client goes on only once the relay has either finished
 		// or is queued behind the outstanding read on the connection
